@@ -198,3 +198,86 @@ var P01 = core.Register(core.Prop[Case01]{
 	Gen:   Gen01,
 	Check: Check01,
 })
+
+// ---- C01.hist: (*Url).Parse on URL values that no string parses to ----------------------------------
+
+// Check01Hist applies a setter history to the implementation and to the model in lock step (agreement
+// about the setters themselves is C05's business: a disagreement there makes the case vacuous) and
+// compares every resolution (*Url).Parse(ref) against the model's parse of ref with the model URL as
+// base. Setters reach base URLs that no string parses to (file://h/C| after a protocol change,
+// file://localhost/, an empty-but-present query after list operations, …).
+func Check01Hist(c CaseHist, r *core.Rec) {
+	var tr spec.Trace
+	mu, mok, _ := modelParse(Model, c.start(), &tr)
+	iu, err := implStart(c)
+	if !mok || err != nil || iu == nil || ObsOf(iu) != mu.Obs() {
+		r.Vacuous()
+		return
+	}
+	setters, resolves := 0, 0
+	for i, op := range c.Ops {
+		switch op.Kind {
+		case "set":
+			Model.Set(mu, op.Setter, string(op.Value))
+			ApplySetter(iu, op.Setter, string(op.Value))
+			if ObsOf(iu) != mu.Obs() {
+				r.Vacuous()
+				return
+			}
+			setters++
+		case "resolve":
+			var tq spec.Trace
+			mv, mvok := Model.ParseT(string(op.Value), mu, &tq)
+			iv, ierr := iu.Parse(string(op.Value))
+			if ierr == nil && iv == nil {
+				r.Failf("after %s: (*Url).Parse returned (nil, nil)", histString(c, i))
+				return
+			}
+			if (ierr == nil) != mvok {
+				r.Failf("after %s: (*Url).Parse ok=%v (%v), the standard's parser ok=%v (state %s)", histString(c, i), ierr == nil, ierr, mvok, tq.FailedIn())
+				return
+			}
+			resolves++
+			if !mvok {
+				continue
+			}
+			if d := DiffObs(ObsOf(iv), mv.Obs()); d != "" {
+				r.Failf("after %s: resolving against the URL value %s: %s", histString(c, i), quote(iu.Href(false)), d)
+				return
+			}
+			iu, mu = iv, mv
+			r.Class("resolve-after-setters")
+		}
+	}
+	if setters >= 1 && resolves >= 1 {
+		r.NT()
+	}
+}
+
+var c01HistRefs = []string{"x", "..", "../y", "/z", "?q", "#f", "", "C|/w", "//h2/p", "./", "a/../b", "\\\\h3\\p", "file:x", "http:x"}
+
+func Gen01Hist(t *rapid.T) CaseHist {
+	c := genHistory(t, histOpts{maxOps: 6, start: "setter"})
+	n := rapid.IntRange(1, 3).Draw(t, "nresolve")
+	for i := 0; i < n; i++ {
+		ref := gen.Pick(t, "href", c01HistRefs)
+		if rapid.IntRange(0, 2).Draw(t, "genref") == 0 {
+			ref = gen.Ref(t, "ref", "")
+		}
+		c.Ops = append(c.Ops, Op{Kind: "resolve", Value: B(ref)})
+		if rapid.IntRange(0, 2).Draw(t, "moreSetters") == 0 {
+			w := rapid.IntRange(0, spec.NumSetters-1).Draw(t, "setter2")
+			c.Ops = append(c.Ops, Op{Kind: "set", Setter: w, Value: B(gen.SetterValue(t, "value2", w))})
+		}
+	}
+	return c
+}
+
+var P01h = core.Register(core.Prop[CaseHist]{
+	ID: "C01.hist",
+	Rule: "a start URL, 0..6 setter calls, then 1..3 resolutions (*Url).Parse(ref) against the URL value reached (interleaved with further setters), applied in lock step to the implementation and the reference model; setters reach base URLs that no string parses to; " +
+		"oracle: every resolution agrees with the model's parse of the reference against the model's URL (failure, Href, 9 getters); a disagreement about a setter step makes the case vacuous (C05 decides those); " +
+		"non-trivial = at least one setter and one resolution were evaluated; distinct by hash of the history",
+	Gen:   Gen01Hist,
+	Check: Check01Hist,
+})
